@@ -338,11 +338,16 @@ def rules(rep, m):
     P = "%s->guard." % cvp
     preds = [c for c in walk(cs.body) if c["kind"] == "CallExpr" and callee_ref(c) is None
              and cx.canon(kids(c)[0]).lstrip("*").endswith(".item[1]")]
-    scans = [x for x in walk(cs.body) if x["kind"] == "ForStmt" and preds and any(y is preds[0] for y in walk(x))]
+    from ..vals import is_assert_stmt as _is_assert
+    scans = [x for x in walk(cs.body) if x["kind"] in ("ForStmt", "WhileStmt", "DoStmt") and not _is_assert(x) and
+             not (x["kind"] == "DoStmt" and int_value(kids(x)[1]) == 0) and preds and any(y is preds[0] for y in walk(x))]
+    scans = [x for x in scans if not any(y is not x and any(z is y for z in walk(x)) for y in scans)]
     if len(preds) != 1 or len(scans) != 1:
         raise AnalysisBroken("R-C06-5: cmb_condition_signal no longer has one scan loop over the waiting list")
     scan = scans[0]
-    lv = [x["name"] for x in walk(kids(scan)[0]) if x["kind"] == "VarDecl"][0]
+    from . import siftrules as _sr
+    _sr.scan_range_general(m, cs, scan, "&%s->guard" % cvp)
+    lv = _sr.scan_range_general.last_cursor
     entry = "%sheap[%s]" % (P, lv)
     scheds = [y for y in walk(cs.body) if y["kind"] == "CallExpr" and callee_ref(y) == "cmb_event_schedule"]
     r5.instance("%d wake-up site(s)" % len(scheds))
@@ -571,8 +576,13 @@ def rules(rep, m):
                     mm = re.fullmatch(r"\(%s \+ (\w+)\)" % re.escape(e_), g_[2])
                     if d_ == 1 and g_[1] in ("!=", "<") and mm:
                         tc = mm.group(1)
-                asc = walker is not None and iv_[walker][1] == 1 and tc == cntv
                 subj = cx.resolve(kids(y)[2])
+                # the walker is the variable the subject is read through; the rounds may be counted by another one
+                ups = [v_ for v_ in iv_ if iv_[v_][1] == 1 and
+                       any(z["kind"] == "DeclRefExpr" and z["ref"]["name"] == v_ for z in walk(subj))]
+                if walker is None or iv_[walker][1] != 1 or walker not in ups:
+                    walker = ups[0] if ups else None
+                asc = walker is not None and iv_[walker][1] == 1 and tc == cntv
                 if not asc or inv.storage_root(cx, cs, subj) != root or not re.search(r"item\[0\]$", render(subj)):
                     okasc = False
                 # the subject is the element the walker is at
